@@ -168,7 +168,7 @@ def phc_part(res, rng):
         for _k in range(n):
             scale = rng.choice([1e-6, 1e-4, 1e-2, 1.0])      # jumps of several orders of magnitude
             d, e, o = cfloat.encode(rng.uniform(0, 0.2) * scale), cfloat.encode(rng.uniform(0, 0.5) * scale), cfloat.encode(rng.uniform(-0.05, 0.05) * scale)
-            phc = rng.choice([0, 0, 1, 12345, rng.randrange(10 ** 6), rng.randrange(2 ** 40)])
+            phc = rng.choice([0, 0, 1, 12345, rng.randrange(10 ** 6), rng.randrange(2 ** 40), 2 ** 32 - 1, 2 ** 32, 2 ** 31 - 1, 2 ** 31, 65535])
             t += rng.randrange(1, 20)
             parts += ["r", str(d), str(e), str(o), str(rng.randrange(3)), str(itv), "0", "0", "0", str(phc), str(t), str(rng.randrange(NS))]
             meta.append((d, e, o, phc))
@@ -214,7 +214,7 @@ def poller_part(res, rng):
         cfg = rng.choice([0x50484330, 0x50484331, 12345])
         steps, t = [], start + NS
         for _k in range(rng.randrange(1, 5)):
-            phc = rng.choice([0, 7, 99999999, 100000000, 250000000, 4294967296, 123456789012, 2 ** 62, rng.randrange(10 ** 13)])
+            phc = rng.choice([0, 7, 99999999, 100000000, 250000000, 4294967295, 4294967296, 2147483647, 2147483648, 123456789012, 2 ** 62, rng.randrange(10 ** 13)])
             steps.append((t, 1, rng.choice([0, 1000, 10 ** 6]), 0, phc, cfg, rng.randrange(1, 60000)))
             t += NS + rng.randrange(NS)
         scripts.append((start, cfg, steps))
